@@ -32,6 +32,8 @@ type c16Params struct {
 	// cancelled at 500ms, and another writer with a healthy context arrives.
 	Stall  bool
 	GiveUp string
+	// NoStatus: the local Close uses StatusNoStatusRcvd, i.e. a Close frame with an empty payload
+	NoStatus bool
 }
 
 type c16State struct {
@@ -140,7 +142,13 @@ func c16Setup(prm c16Params) func(c *fw.Ctx, name string) explore.Setup {
 				}
 				switch prm.Init {
 				case "local":
-					w.GoHarness("closer", true, func() { st.closeErr = conn.Close(websocket.StatusNormalClosure, "bye") })
+					w.GoHarness("closer", true, func() {
+						if prm.NoStatus {
+							st.closeErr = conn.Close(websocket.StatusNoStatusRcvd, "")
+							return
+						}
+						st.closeErr = conn.Close(websocket.StatusNormalClosure, "bye")
+					})
 				case "peer":
 					w.GoHarness("reader", true, reader)
 					w.GoHarness("peer", false, func() { st.p.Send(peerClose(k, 1000, "peer-bye")) })
@@ -243,6 +251,9 @@ func c16Scenarios(tier string) []scenario {
 			add(c16Params{Name: "local-" + echo + "-w2", K: k, Init: "local", Echo: echo, Writers: 2}, P(1), P(2))
 		}
 		add(c16Params{Name: "local-early-ping", K: k, Init: "local", Echo: "early", Writers: 1, Pinger: true}, P(1), P(2))
+		// a Close frame without status code (empty payload), echoed late or never
+		add(c16Params{Name: "local-nostatus-late-w1", K: k, Init: "local", Echo: "late", Writers: 1, NoStatus: true}, P(2), P(3))
+		add(c16Params{Name: "local-nostatus-never-w2", K: k, Init: "local", Echo: "never", Writers: 2, NoStatus: true}, P(1), P(2))
 		for _, gu := range []string{"write", "ping"} {
 			add(c16Params{Name: "local-stalled-giveup-" + gu, K: k, Init: "local", Echo: "early", Stall: true, GiveUp: gu}, P(1), P(3))
 			add(c16Params{Name: "peer-stalled-giveup-" + gu, K: k, Init: "peer", Echo: "early", Stall: true, GiveUp: gu}, P(1), P(2))
